@@ -465,7 +465,7 @@ fn replay(path: &str) -> i32 {
         "nested" => eng_nested::replay(&v),
         "drops" => eng_drops::replay(&v),
         "hist" | "threads" => eng_hist::replay(&v),
-        "graphemes" | "iterinput" | "cursor" | "seqs" | "pulls" => eng_inputs::replay(&v),
+        "graphemes" | "iterinput" | "cursor" | "seqs" | "pulls" | "collects" => eng_inputs::replay(&v),
         "leftrec" | "sharedmemo" | "rec" | "rec-life" | "rec-depth" | "rec-define" => eng_rec::replay(&v),
         _ => cvh::replay::replay(&v),
     };
